@@ -95,6 +95,11 @@ func PEMFile(info Info, data []byte) (Info, error) {
 		if b == nil {
 			break
 		}
+		if strings.HasPrefix(b.Type, "PGP ") {
+			// PGP armor belongs to the PGP parsers; it is never generic PEM data
+			rest = skipToPEMBlock(rest)
+			continue
+		}
 		blockInfos = append(blockInfos, parsePEMBlock(b))
 		rest = skipToPEMBlock(rest)
 	}
